@@ -309,10 +309,12 @@ func c13Body(c *Ctx) {
 		c.analysed(relName(mg))
 		// the store into sf.Tag: reached iff src != "" && dst == ""
 		var st *ssa.Store
+		var tagStores []*ssa.Store
 		for _, i := range allInstrs(mg) {
 			if s, ok := i.(*ssa.Store); ok {
 				if fa, ok := s.Addr.(*ssa.FieldAddr); ok && fieldName(fa.X.Type(), fa.Field) == "Tag" {
 					st = s
+					tagStores = append(tagStores, s)
 				}
 			}
 		}
@@ -332,7 +334,11 @@ func c13Body(c *Ctx) {
 				}
 				return ""
 			}}
-			g := pb.pathCond(mg.Blocks[0], st.Block())
+			// the tag is rewritten when any of the rewriting stores is reached (one store per form of the new tag text)
+			var g formula = fConst{false}
+			for _, s := range tagStores {
+				g = mkOr(g, pb.pathCond(mg.Blocks[0], s.Block()))
+			}
 			rows, counter := forAll(g, nil, func(e env, fv bool) bool { return fv == (!e.B["eq(src,\"\")"] && e.B["eq(dst,\"\")"]) })
 			if counter != "" {
 				c.bad("specific-tag-wins", relName(mg), st.Pos(), "the tag is rewritten under %s, not exactly src != \"\" && dst == \"\": %s", g, counter)
